@@ -60,10 +60,12 @@ func (s *socket) RecvMsg() (*protocol.Message, error) {
 	// For now this uses a simple unified queue for the entire
 	// socket.  Later we can look at moving this to priority queues
 	// based on socket pipes.
+	// (the deadline is armed once: a queue resize while we wait must not
+	// start it over)
 	timeQ := nilQ
 	for {
 		s.Lock()
-		if s.recvExpire > 0 {
+		if s.recvExpire > 0 && timeQ == nil {
 			timeQ = time.After(s.recvExpire)
 		}
 		closeQ := s.closeQ
